@@ -35,6 +35,7 @@ try:
         shutil.copytree(src, os.path.join(wt, "out7", k), dirs_exist_ok=True)
         shutil.copytree(src, os.path.join(wt, "out8", k), dirs_exist_ok=True)
         shutil.copytree(src, os.path.join(wt, "out9", k), dirs_exist_ok=True)
+        shutil.copytree(src, os.path.join(wt, "out10", k), dirs_exist_ok=True)
         if "cp " not in demo_cmd:
             for f in demo_src:
                 p = os.path.join(src, f)
